@@ -46,7 +46,8 @@ enum PoolEntry {
 
 /// How deep `Dynamic` pool entries may be nested in the arguments of their bootstrap methods.
 const MAX_DYNAMIC_DEPTH: usize = 256;
-/// How many arguments of the bootstrap methods of `Dynamic` pool entries may be resolved while reading one class file.
+/// How many arguments of the bootstrap methods of nested `Dynamic` pool entries (that is, of entries that are themselves
+/// arguments of a bootstrap method) may be resolved while reading one class file.
 const MAX_NESTED_LOADABLES: usize = 32768;
 
 impl PoolEntry {
@@ -297,7 +298,7 @@ impl PoolEntry {
 pub(crate) struct PoolRead {
 	/// We store a [`None`] for the zero index, as well as for the upper indices of [`PoolEntry::Double`] and [`PoolEntry::Long`].
 	inner: Vec<Option<PoolEntry>>,
-	/// How many arguments of bootstrap methods of [`PoolEntry::Dynamic`] have been resolved so far.
+	/// How many arguments of bootstrap methods of nested [`PoolEntry::Dynamic`] have been resolved so far.
 	nested_loadables: Cell<usize>,
 }
 
@@ -527,12 +528,13 @@ impl PoolRead {
 	/// Like [`PoolRead::get_loadable`], for a loadable that is `depth` levels deep in arguments of bootstrap methods.
 	fn get_loadable_nested(&self, index: u16, bootstrap_methods: &Option<Vec<BootstrapMethodRead>>, depth: usize) -> Result<Loadable> {
 		// Every use of a constant as an argument of a `Dynamic` entry gets its own copy in the tree. This bounds the number
-		// of copies, so that a (malformed) class file where a few `Dynamic` entries share each other as arguments can't take
-		// time and memory exponential in its size.
-		if depth > 0 {
+		// of copies below nested `Dynamic` entries, so that a (malformed) class file where a few `Dynamic` entries share each
+		// other as arguments can't take time and memory exponential in its size. (The arguments of an entry that is loaded
+		// directly, at depth one, are not counted: there are only as many as its bootstrap method lists.)
+		if depth > 1 {
 			let nested_loadables = self.nested_loadables.get() + 1;
 			if nested_loadables > MAX_NESTED_LOADABLES {
-				bail!("more than {MAX_NESTED_LOADABLES} arguments of bootstrap methods of `Dynamic` pool entries");
+				bail!("more than {MAX_NESTED_LOADABLES} arguments of bootstrap methods of nested `Dynamic` pool entries");
 			}
 			self.nested_loadables.set(nested_loadables);
 		}
